@@ -469,14 +469,21 @@ impl<'tcx> Cx<'tcx> {
                     o.push(("sp", self.span(*fn_span)));
                     J::O(o)
                 }
-                TerminatorKind::Assert { cond, expected, target, msg, .. } => J::O(vec![
-                    ("t", s("assert")),
-                    ("cond", self.operand(did, body, cond)),
-                    ("expected", J::B(*expected)),
-                    ("to", bbj(target)),
-                    ("msg", s(format!("{:?}", msg).chars().take(80).collect::<String>())),
-                    ("sp", self.span(term.source_info.span)),
-                ]),
+                TerminatorKind::Assert { cond, expected, target, msg, .. } => {
+                    let mut o = vec![
+                        ("t", s("assert")),
+                        ("cond", self.operand(did, body, cond)),
+                        ("expected", J::B(*expected)),
+                        ("to", bbj(target)),
+                        ("msg", s(format!("{:?}", msg).chars().take(80).collect::<String>())),
+                        ("sp", self.span(term.source_info.span)),
+                    ];
+                    if let mir::AssertKind::BoundsCheck { len, index } = &**msg {
+                        o.push(("bc_len", self.operand(did, body, len)));
+                        o.push(("bc_index", self.operand(did, body, index)));
+                    }
+                    J::O(o)
+                }
                 TerminatorKind::FalseEdge { real_target, .. } => {
                     J::O(vec![("t", s("goto")), ("to", bbj(real_target))])
                 }
